@@ -879,6 +879,18 @@ fn fixed_plans() -> Vec<(String, Vec<PGraph>)> {
         ("signedness".into(), mk(vec![Step::Input(b(&[2, 8])), Step::Input(b(&[2, 8])),
             Step::Custom(gt(false), vec![0, 1]), Step::Custom(gt(true), vec![0, 1]),
             Step::Custom(mn(false), vec![0, 1]), Step::Custom(mn(true), vec![0, 1]), Step::Custom(mn(true), vec![1, 0])])),
+        // a composite operation first, then one of its own nested dependencies (itself composite)
+        // used directly on the same argument types: discovered under the first, still to be explored
+        ("dep-after-user-min".into(), mk(vec![Step::Input(b(&[2, 8])), Step::Input(b(&[2, 8])),
+            Step::Custom(mn(false), vec![0, 1]), Step::Custom(gt(false), vec![0, 1])])),
+        ("dep-after-user-min-signed".into(), mk(vec![Step::Input(b(&[3, 5])), Step::Input(b(&[3, 5])),
+            Step::Custom(mn(true), vec![0, 1]), Step::Custom(gt(true), vec![0, 1])])),
+        ("dep-after-user-max".into(), mk(vec![Step::Input(b(&[2, 8])), Step::Input(b(&[2, 8])),
+            Step::Custom(cop(json!({"type":"Max","signed_comparison": false})), vec![0, 1]), Step::Custom(gt(false), vec![0, 1])])),
+        ("dep-after-user-geq".into(), mk(vec![Step::Input(b(&[2, 8])), Step::Input(b(&[2, 8])),
+            Step::Custom(cop(json!({"type":"GreaterThanEqualTo","signed_comparison": false})), vec![0, 1]),
+            Step::Custom(cop(json!({"type":"LessThan","signed_comparison": false})), vec![0, 1]),
+            Step::Custom(cop(json!({"type":"NotEqual"})), vec![0, 1]), Step::Custom(cop(json!({"type":"Equal"})), vec![0, 1])])),
         // the repaired defect: two sort keys on one named-tuple type
         ("sort-keys".into(), mk(vec![Step::Input(nt.clone()), Step::Custom(sort("a"), vec![0]), Step::Custom(sort("b"), vec![0])])),
         // Or -> Not at two types, Not also used directly
